@@ -204,6 +204,7 @@ def run_connection(scn, capture=None):
         dev.count = 0
         dev.log = []
         w0 = len(d.transport.writes)
+        r0 = len(d.transport.reads)
         d.transport.chunker = PolicyChunker(scn["policy"], dev)
         res["residue0"] = d.transport.residue()
         res["delivered0"] = d.transport.delivered
@@ -258,6 +259,7 @@ def run_connection(scn, capture=None):
         res["log"] = list(dev.log)
         res["residue"] = d.transport.residue()
         res["reads"] = len(d.transport.reads)
+        res["chunks"] = list(d.transport.reads[r0:])      # what every transport read of the history handed out
         if capture is not None:
             capture["driver"] = d
             capture["device"] = dev
